@@ -19,9 +19,6 @@ import (
 	"strings"
 	"sync"
 
-	"github.com/octohelm/gengo/pkg/gengo"
-	"github.com/octohelm/gengo/pkg/gengo/snippet"
-	"github.com/octohelm/gengo/pkg/namer"
 	gformat "mvdan.cc/gofumpt/format"
 
 	"verif/harness/internal/core"
@@ -135,6 +132,13 @@ func fragScript(mod gfModule, self string, f gfFrag, i int) [][]pipe.ScriptPart 
 		parts = append(parts, t(fmt.Sprintf("var L%d = [\n// sizes %d\n] int { 1 , 2 , 3 }", i, i)))
 	case "tmpl":
 		parts = append(parts, pipe.ScriptPart{Tmpl: fmt.Sprintf("var U%d @used", i), Used: self + ".T1", Unused: "encoding/xml.Decoder"})
+	}
+	// declarations assembled from several Render calls at places where an inserted line break changes the program
+	switch f.Kind {
+	case "rawsplit": // inside a raw string literal
+		return [][]pipe.ScriptPart{{t(fmt.Sprintf("\nvar R%d = `ab", i))}, {t("cd` + `e")}, {t("f`\n")}}
+	case "retsplit": // between return and its operand
+		return [][]pipe.ScriptPart{{t(fmt.Sprintf("\nfunc Z%d() int { return", i))}, {t(" 42 }\n")}}
 	}
 	plainKind := f.Kind == "comment" || f.Kind == "directive"
 	wrap := func(pre, post string) [][]pipe.ScriptPart {
@@ -322,17 +326,44 @@ func genfileObserve(root string, mod gfModule, pkgDir, pkgName, gen string, scri
 	}
 	o["import_paths"], o["import_names"], o["import_names_ok"] = ipaths, inames, namesOK
 	// the rendered body, re-rendered by the harness through the same writer machinery, against the file's body: token for token
-	buf := bytes.NewBuffer(nil)
-	tracker := namer.NewDefaultImportTracker()
-	sw := gengo.NewSnippetWriter(buf, namer.NameSystems{"raw": namer.NewRawNamer(selfPath, tracker)})
-	js, _ := json.Marshal(script)
-	if err := pipe.RenderScript(string(js), func(s snippet.Snippet) { sw.Render(s) }); err == nil {
-		wd, wc, e1 := normalise(append([]byte("package "+pkgName+"\n"), buf.Bytes()...))
+	// The reference text is put together by the harness itself - the text parts as they are, a reference to a type as the local
+	// name the FILE binds to its package (or nothing for the file's own package) + its name - never by gengo's writer: what a
+	// Render call adds or drops must show.
+	nameOf := map[string]string{}
+	for k, im := range f.Imports {
+		nameOf[strings.Trim(im.Path.Value, `"`)] = inames[k]
+	}
+	refText := func(id string) string {
+		dot := strings.LastIndex(id, ".")
+		path, name := id[:dot], id[dot+1:]
+		if path == selfPath {
+			return name
+		}
+		if n, ok := nameOf[path]; ok {
+			return n + "." + name
+		}
+		return "MISSINGIMPORT." + name
+	}
+	var ref strings.Builder
+	for _, call := range script {
+		for _, part := range call {
+			switch {
+			case part.Tmpl != "":
+				ref.WriteString(strings.ReplaceAll(part.Tmpl, "@used", refText(part.Used)))
+			case part.ID != "":
+				ref.WriteString(refText(part.ID))
+			default:
+				ref.WriteString(part.T)
+			}
+		}
+	}
+	{
+		wd, wc, e1 := normalise(append([]byte("package "+pkgName+"\n"), ref.String()...))
 		gd, gc, e2 := normalise(data)
 		same := e1 == nil && e2 == nil && strings.Join(wd, "\x00") == strings.Join(gd, "\x00") && strings.Join(wc, "\x00") == strings.Join(gc, "\x00")
 		o["same_modulo_formatting"] = same
 		if !same {
-			o["norm_want"], o["norm_got"] = append(wd, wc...), append(gd, gc...)
+			o["norm_want"], o["norm_got"] = append(append([]string{}, wd...), wc...), append(append([]string{}, gd...), gc...)
 		}
 	}
 	if fm, err := format.Source(data); err == nil {
